@@ -64,8 +64,8 @@ Print Assumptions C15_constants.
 
 Example C15_nonvacuous :
   let o := {| o_helo := fun _ => true; o_addr := fun _ _ => AP_nobracket; o_ext := fun _ => Ext_ok 0 0 None; o_relay := 0%Z;
-              o_mx := fun _ => 0; o_qq := fun _ => QQ_ok; o_databytes := 0%N; o_liphost := []; o_check2822 := false; o_authperm := false; o_auth := fun _ => Auth_multi; o_trace := fun _ _ _ _ _ _ => [];
-              o_submission := false; o_subm_date := []; o_subm_stamp := []; o_msgidhost := [] |} in
+              o_mx := fun _ => 0; o_qq := fun _ => QQ_ok; o_databytes := 0%N; o_liphost := []; o_check2822 := false; o_authperm := false; o_auth := fun _ => Auth_multi; o_trace := fun _ _ _ _ _ _ _ => [];
+              o_submission := false; o_subm_date := []; o_subm_stamp := []; o_msgidhost := []; o_tls := false; o_tlsverify := TV_no |} in
   let bad := [70; 79; 79; 13; 10]%N in
   run_session o [bad; bad; bad; bad; bad; bad; bad; bad]
   = [Reply 220; Note NBad; Reply 500; Note NBad; Reply 500; Note NBad; Reply 500; Note NBad; Reply 500;
